@@ -22,7 +22,8 @@ RULE = ('lines: sequences of server lines over an abstract alphabet (REJECTED wi
         'NEGOTIATE_UNIX_FD (which must then be sent); S2 AUTH names EXTERNAL, DBUS_COOKIE_SHA1, ANONYMOUS in that order, '
         'each at most once, only after REJECTED/ERROR; S3 every server line is followed by a client line, a close or '
         'completion; S4 a line outside the protocol or exhaustion of the mechanisms closes the connection. '
-        'handshake: full conversations against a spec-following reference server actor for every non-empty subset of '
+        'lines_near: near-commands (foreign bytes inside a command word, glued suffixes, words of the other side, handler '
+        'names read off the implementation) are all outside the protocol. handshake: full conversations against a spec-following reference server actor for every non-empty subset of '
         'accepted mechanisms x answer to NEGOTIATE_UNIX_FD (AGREE/ERROR) x transport kind, the cookie keyring living '
         'under a scratch $HOME, plus cookie challenges this client cannot answer (unknown cookie id, no keyring); oracle '
         'S5: the handshake completes whenever the server accepts a mechanism the client can carry through, otherwise the '
@@ -43,10 +44,37 @@ LETTERS = {
     'OKodd': b'OK 012', 'OK0x': b'OK 0x0123456789abcdef',
 }
 CORE = ['RJ', 'OKh', 'OKx', 'OK0', 'OKw', 'Dh', 'Dj', 'D0', 'ER', 'AG', 'UK', 'EM']
+# near-commands: a real command word with foreign bytes in it, glued to something, or a word of the other side
+NEAR = {'OKn': b'O\xc3\xa9K ' + GUIDHEX, 'OKz': b'OK\xe2\x80\x8b ' + GUIDHEX, 'RJn': b'\xe2\x80\x8bREJECTED',
+        'AGn': b'AGREE\xc2\xa0_UNIX_FD', 'ERn': b'ERR\xc3\x96OR', 'OKAY': b'OKAY ' + GUIDHEX, 'AGx': b'AGREE_UNIX_FDS',
+        'RJx': b'REJECTEDX EXTERNAL', 'BGs': b'BEGIN', 'AUs': b'AUTH EXTERNAL'}
+LETTERS.update(NEAR)
+
+
+def _whitebox_words():
+    """Words the authenticators would dispatch on by handler name and that are not server lines of the protocol."""
+    try:
+        from txdbus import authentication as AU
+        names = set()
+        for cls in (AU.ClientAuthenticator, AU.BusAuthenticator):
+            for n in dir(cls):
+                if n.startswith('_auth_') and callable(getattr(cls, n, None)):
+                    names.add(n[len('_auth_'):])
+        return sorted(w for w in names if w and w not in {'OK', 'REJECTED', 'ERROR', 'DATA', 'AGREE_UNIX_FD'})
+    except Exception:
+        return []
+
+
+WHITEBOX = {}
+for _i, _w in enumerate(_whitebox_words()):
+    WHITEBOX['WB%d' % _i] = _w.encode('ascii', 'replace') + b' ' + GUIDHEX
+LETTERS.update(WHITEBOX)
 KIND = {'RJ': 'rejected', 'RJ0': 'rejected', 'OKh': 'ok', 'OKs': 'ok', 'OKx': 'ok_bad', 'OK0': 'ok_bad',
         'OKw': 'ok_bad', 'OKb': 'ok_bad', 'OKtab': 'ok_bad', 'OKodd': 'ok_bad', 'OK0x': 'ok_bad',
         'Dh': 'data', 'Dj': 'data', 'D0': 'data', 'Dc': 'data', 'ER': 'error', 'ERt': 'error', 'AG': 'agree',
         'UK': 'outside', 'EM': 'outside', 'NU': 'outside', 'LC': 'outside'}
+for _k in list(NEAR) + list(WHITEBOX):
+    KIND[_k] = 'outside'
 SPLITS = ['bytes', 'one', 'crlf', 'cuts']
 
 
@@ -423,6 +451,16 @@ def run_handshake(case):
     return out
 
 
+def enum_near(tier):
+    i = 0
+    for x in sorted(NEAR) + sorted(WHITEBOX):
+        for pre in ([], ['RJ'], ['OKh'], ['RJ', 'RJ'], ['RJ', 'Dc']):
+            for fol in ([], ['OKh'], ['RJ']):
+                for unix in (False, True):
+                    yield {'seq': pre + [x] + fol, 'unix': unix, 'split': SPLITS[i % 3]}
+                    i += 1
+
+
 def enum_handshake(tier):
     mechs = ['EXTERNAL', 'DBUS_COOKIE_SHA1', 'ANONYMOUS']
     for r in (1, 2, 3):
@@ -450,6 +488,10 @@ SUBCHECKS = [
                              '{UNIX, non-UNIX} transport'),
     Subcheck('lines_random', run_lines, classify_lines, strategy=lambda tier: random_lines(tier),
              n={'quick': 300, 'thorough': 3000}),
+    Subcheck('lines_near', run_lines, classify_lines, enumerate=enum_near, shards={'quick': 4, 'thorough': 4},
+             exhaustive_note='10 near-commands (foreign bytes inside a command word, glued suffixes, client-side words) and '
+                             'every non-protocol word the authenticators would dispatch on by name x 5 prefixes x 3 '
+                             'continuations x 2 transport kinds: all are outside the protocol'),
     Subcheck('handshake', run_handshake, classify_handshake, enumerate=enum_handshake,
              shards={'quick': 2, 'thorough': 2},
              exhaustive_note='7 non-empty subsets of accepted mechanisms x 2 answers to NEGOTIATE_UNIX_FD x 2 transport '
